@@ -6,6 +6,8 @@ import (
 	"go/token"
 	"go/types"
 
+	"golang.org/x/tools/go/cfg"
+
 	"osmcheck/core"
 )
 
@@ -16,10 +18,24 @@ import (
 func c09HeaderTest(m *pbfModel, e ast.Expr, firstHdr types.Object, depth int) tri {
 	info := m.info
 	e = ast.Unparen(e)
-	if id, ok := e.(*ast.Ident); ok && depth < 3 {
+	if id, ok := e.(*ast.Ident); ok && depth < 4 {
+		// a boolean local or parameter: every definition (assignment, argument at every call / go statement) must be
+		// a header test of the same polarity
 		if o, ok := objOf(info, id).(*types.Var); ok && !o.IsField() {
-			if defs := m.defsOf(o); len(defs) == 1 && defs[0].kind == "assign" {
-				return evalTriPolarity(defs[0].e, func(a ast.Expr) tri { return c09HeaderTest(m, a, firstHdr, depth+1) })
+			defs := m.defsOf(o)
+			v := tri(-1)
+			for _, d := range defs {
+				if (d.kind != "assign" && d.kind != "arg") || d.e == nil {
+					return triU
+				}
+				dv := evalTriPolarity(d.e, func(a ast.Expr) tri { return c09HeaderTest(m, a, firstHdr, depth+1) })
+				if dv == triU || (v != tri(-1) && v != dv) {
+					return triU
+				}
+				v = dv
+			}
+			if v != tri(-1) {
+				return v
 			}
 		}
 		return triU
@@ -42,6 +58,22 @@ func c09HeaderTest(m *pbfModel, e ast.Expr, firstHdr types.Object, depth int) tr
 		return ok && s == "OSMHeader"
 	}
 	if !(isGetType(l) && isHeaderConst(r)) && !(isGetType(r) && isHeaderConst(l)) {
+		// `X != nil` / `X == nil` where X carries the first block's blob exactly when the block is not a header
+		var x ast.Expr
+		switch {
+		case isNilIdent(r):
+			x = l
+		case isNilIdent(l):
+			x = r
+		}
+		if x != nil {
+			if o, ok := objOf(info, x).(*types.Var); ok && !o.IsField() && c09NilCarrier(m, o, firstHdr, depth) {
+				if op == token.NEQ {
+					return triF // non-nil: the first block is not a header
+				}
+				return triT
+			}
+		}
 		return triU
 	}
 	if op == token.EQL {
@@ -63,7 +95,32 @@ func evalTriPolarity(e ast.Expr, atom func(ast.Expr) tri) tri {
 // c09GuardsAt returns the atomic facts that control node n in function body (CFG-based, any surface form), each
 // classified as a header test; other==true when some controlling fact is not a header test.
 func c09GuardsAt(m *pbfModel, fi *FuncInfo, body *ast.BlockStmt, pos token.Pos, firstHdr types.Object) (isHeader, notHeader, other bool) {
+	c := m.cfgOf(body)
+	target, _ := blockOf(c.g, pos)
 	for _, ft := range m.view.factsAt(fi, body, pos) {
+		// a guard whose other branch leaves the function for good (an early `return err`) does not decide whether the
+		// block is dispatched in a scan that goes on: the other branch never rejoins the code after pos
+		if ft.at != nil && target != nil && len(ft.at.Succs) == 2 {
+			after := reachableFrom([]*cfg.Block{target}, nil)
+			for _, succ := range ft.at.Succs {
+				opp := reachableFrom([]*cfg.Block{succ}, func(x *cfg.Block) bool { return x == ft.at })
+				if opp[target] {
+					continue
+				}
+				rejoins := false
+				for b := range opp {
+					if after[b] {
+						rejoins = true
+					}
+				}
+				if !rejoins {
+					ft.at = nil // marks an abort guard
+				}
+			}
+			if ft.at == nil {
+				continue
+			}
+		}
 		v := evalTriPolarity(ft.expr, func(a ast.Expr) tri { return c09HeaderTest(m, a, firstHdr, 0) })
 		if !ft.val {
 			v = triNot(v)
@@ -147,7 +204,7 @@ func c09B6(r *core.R) {
 	found, why := false, ""
 	m.deepWalk(g.unit, func(s *pbfSite, n ast.Node) bool {
 		snd, ok := n.(*ast.SendStmt)
-		if !ok || m.chanClass(nil, snd.Chan) != f.in || len(s.frames) != 1 {
+		if !ok || m.chanClass(nil, snd.Chan) != f.in {
 			return true
 		}
 		carries := false
@@ -159,7 +216,20 @@ func c09B6(r *core.R) {
 		if !carries {
 			return true
 		}
-		_, notH, other := c09GuardsAt(m, s.unit().fi, s.body(), snd.Pos(), firstHdr)
+		// the conditions that control the send: in its own function and, for a send in a helper, at every call on
+		// the chain from the goroutine body (what the caller tested holds in the callee)
+		notH, other := false, false
+		for i, fr := range s.frames {
+			at := fr.link
+			if i == len(s.frames)-1 {
+				at = snd
+			}
+			if fr.deferred {
+				other = true
+			}
+			_, nh, ot := c09GuardsAt(m, fr.u.fi, fr.body, at.Pos(), firstHdr)
+			notH, other = notH || nh, other || ot
+		}
 		switch {
 		case !notH:
 			why = "the send of the first block is not under the test `GetType() != \"OSMHeader\"`"
@@ -200,6 +270,16 @@ func c09FirstValue(m *pbfModel, o, first types.Object) bool {
 				return false
 			}
 			bound = true
+		case "zero":
+			// `var first *Blob`: nil until assigned
+		case "assign":
+			if isNilIdent(d.e) {
+				continue
+			}
+			if d.e == nil || !c09FirstValue(m, objOf(m.info, d.e), first) {
+				return false
+			}
+			bound = true
 		case "result":
 			// re-assigned from a later block read, like the captured variable
 			ok := false
@@ -220,4 +300,45 @@ func c09FirstValue(m *pbfModel, o, first types.Object) bool {
 		}
 	}
 	return bound
+}
+
+// c09NilCarrier reports whether pointer variable o is non-nil exactly when the first block is not a header: following
+// parameters to the argument at every call / go statement, it ends in a variable whose definitions are the zero value
+// / nil and one or more assignments of a value, each controlled by exactly the "not a header" test (so that a nil test
+// of o in the callee stands for the header test made at the call site).
+func c09NilCarrier(m *pbfModel, o *types.Var, firstHdr types.Object, depth int) bool {
+	if depth > 4 {
+		return false
+	}
+	defs := m.defsOf(o)
+	if len(defs) == 0 {
+		return false
+	}
+	assigned := false
+	for _, d := range defs {
+		switch d.kind {
+		case "zero":
+		case "arg":
+			ao, ok := objOf(m.info, d.e).(*types.Var)
+			if !ok || ao.IsField() || !c09NilCarrier(m, ao, firstHdr, depth+1) {
+				return false
+			}
+			assigned = true
+		case "assign":
+			if isNilIdent(d.e) {
+				continue
+			}
+			// a value: the assignment must be controlled by the not-a-header test and by nothing else
+			fi := d.fi
+			body := fi.Decl.Body
+			_, notH, other := c09GuardsAt(m, fi, body, d.stmt.Pos(), firstHdr)
+			if !notH || other {
+				return false
+			}
+			assigned = true
+		default:
+			return false
+		}
+	}
+	return assigned
 }
